@@ -160,6 +160,10 @@ func (fc *funcCtx) tryInline(st *State, callee *ssa.Function, args []Value, ssaA
 		savedNamed[k] = v
 	}
 	st2 := st.clone()
+	// the callee's blocks belong to none of the caller's loops: run it with an empty loop stack
+	// (the edge handling would otherwise pop the caller's frames) and put the stack back afterwards
+	savedLoops := st.loops
+	st2.loops = nil
 	for i, p := range callee.Params {
 		if i < len(args) {
 			st2.regs[p] = args[i]
@@ -208,6 +212,7 @@ func (fc *funcCtx) tryInline(st *State, callee *ssa.Function, args []Value, ssaA
 	out := merged.cells["inline:ret"]
 	delete(merged.cells, "inline:ret")
 	merged.named = savedNamed
+	merged.loops = savedLoops
 	*st = *merged
 	return out, false, true
 }
